@@ -50,6 +50,11 @@ def static_stream():
     return {"kind": "static", "nontrivial": [],
             "what": "static lock inventory of the CURRENT source (checklib/static_sites.py): every parking_lot acquisition expression in the non-test, non-hook code of cachelito-core and the macro crates is preceded by its H1 yield point (64 sites), every declared lock object belongs to the known set (rank table of Conc.lean), no guard bound by let is in scope at an .await in the async engine / async macro"}
 
+def reg_stream():
+    return lines_stream("reg_diff", "reg", ["gen", "{seed}", "{n}"], 3000, 60000,
+                        "registry: the REAL InvalidationRegistry (private instance) through arbitrary registration histories (macro-like once-only registrations in any order interleaved with requests; free histories with re-registration under other metadata, replaced callbacks, shared tags/events/dependencies, undeclared requests, clear()) vs Cachelito.Registry.run; per operation the return value and the set of callbacks that really ran",
+                        r"c[1-9]\d*:|f1:")
+
 def lines_stream(bin_, mode, args, quick, thorough, what, nontrivial_re="."):
     return {"kind": "lines", "bin": bin_, "mode": mode, "args": args, "n": {"quick": quick, "thorough": thorough},
             "what": what, "nontrivial_re": nontrivial_re}
@@ -193,7 +198,7 @@ PROPS = {
     },
     "C12": {
         "lean_modules": ["Cachelito.Props.C12"],
-        "streams": [macro_stream(nontrivial=["group-invalidation-hit"])],
+        "streams": [macro_stream(nontrivial=["group-invalidation-hit"]), reg_stream()],
         "monitors": ["C12"],
         "rule": "episodes over 4 real generated functions drawn from a corpus with random tag/event/dependency/name metadata (sync and async mixed, name overrides), requests including undeclared names; non-trivial = a group invalidation that matched at least one registered cache",
         "level_text": "Lean theorems over the system model (caches + invalidation registry): after a tag/event/dependency/name request every registered matching cache has empty store and queue, the returned count/boolean equals the number of such caches, unknown names change nothing, and the next call for any arguments runs the body (also after arbitrary other operations). Tied to the code by return values and the verif dumps of every cache instance after each operation.",
@@ -202,7 +207,7 @@ PROPS = {
     },
     "C13": {
         "lean_modules": ["Cachelito.Props.C13"],
-        "streams": [macro_stream(nontrivial=["conditional-invalidation-removed", "group-invalidation-hit"])],
+        "streams": [macro_stream(nontrivial=["conditional-invalidation-removed", "group-invalidation-hit"]), reg_stream()],
         "monitors": ["C13"],
         "rule": "episodes with invalidate_with / invalidate_all_with over random subsets of the stored keys and group invalidations, followed by further overflow histories; non-trivial = an invalidation that removed something",
         "level_text": "Lean theorems: group invalidations leave every non-matching cache instance (incl. thread-scope ones) equal; invalidate_with / invalidate_all_with yield exactly store.filter(not p) and queue.filter(not p) with survivors' order, values, births and hit counters kept; the invariant is preserved system-wide; sizes and memory totals afterwards are those of the survivors, a following overflow evicts the oldest survivor, and invalidation commutes with stores of the survivors. Tied to the code by dumps of every cache instance after each operation.",
